@@ -216,8 +216,10 @@ fn db_of(adv: bool) -> BoxedStrategy<DbDesc> {
         ],
         proptest::sample::select(vec!["cdn.test.com", "a.example.com b.example.com"]),
         proptest::sample::select(vec!["test/path", "tpr/wow"]),
+        prop_oneof![2 => Just(0u8), 1 => Just(1u8), 1 => Just(2u8), 1 => Just(3u8)],
     )
-        .prop_map(|(products, mode, hosts, path)| DbDesc {
+        .prop_map(|(products, mode, hosts, path, id_mode)| DbDesc {
+            id_mode,
             products: products
                 .into_iter()
                 .map(|(name, builds)| ProductD {
@@ -273,7 +275,7 @@ fn older_build() -> BuildD {
 }
 
 fn one(name: &str, builds: Vec<BuildD>) -> DbDesc {
-    DbDesc { products: vec![ProductD { name: name.into(), builds }], cdn_hosts: "cdn.test.com".into(), cdn_path: "test/path".into() }
+    DbDesc { id_mode: (builds.len() % 4) as u8, products: vec![ProductD { name: name.into(), builds }], cdn_hosts: "cdn.test.com".into(), cdn_path: "test/path".into() }
 }
 
 pub fn feature_cases() -> Vec<DbDesc> {
@@ -382,12 +384,14 @@ pub fn feature_cases() -> Vec<DbDesc> {
     v.push(one(".", vec![b()]));
     v.push(one("..", vec![b()]));
     v.push(DbDesc {
+        id_mode: 1,
         products: vec![ProductD { name: "wow".into(), builds: vec![older_build()] }, ProductD { name: "wow".into(), builds: vec![b()] }],
         cdn_hosts: "a.example.com b.example.com".into(),
         cdn_path: "tpr/wow".into(),
     });
     // several products, one of them hostile to the summary only
     v.push(DbDesc {
+        id_mode: 1,
         products: vec![
             ProductD { name: "wow".into(), builds: vec![b()] },
             ProductD { name: "wowt".into(), builds: vec![older_build(), b()] },
@@ -433,9 +437,12 @@ pub fn hostile_strategy(thorough: bool) -> impl Strategy<Value = HostileCase> {
     (
         proptest::collection::vec((benign(12), proptest::collection::vec(build(false), 1..=2)), 0..=2),
         proptest::collection::vec(proptest::collection::vec(hostile(thorough), 1..=4), 4),
+        prop_oneof![12 => Just(0u16), 1 => Just(70u16), 1 => Just(130u16)],
     )
-        .prop_map(|(products, clients)| HostileCase {
+        .prop_map(|(products, clients, silent_crowd)| HostileCase {
+            silent_crowd,
             db: DbDesc {
+                id_mode: 0,
                 products: products
                     .into_iter()
                     .map(|(name, builds)| ProductD { name, builds: builds.into_iter().map(|(b, _)| b).collect() })
